@@ -170,7 +170,7 @@ let model_conc toks =
     if mode = 4 then Printf.sprintf "MEMO-UNHASHABLE uses=%d calls=%d" (ng * nuses) (ng * nuses) else
     let uses = List.concat (List.init ng (fun g -> List.init nuses (fun u ->
       let k = if mode = 2 then chain_key ((g + u) mod nchains) else keys.(g * nuses + u) in
-      if mode = 3 then min k 3 else k))) in
+      if mode = 3 then min k 4 else k))) in
     let s = run mstep (round_robin (List.length uses) (4 * List.length uses + 4)) (minit (List.map nat_of_int uses)) in
     let distinct = List.sort_uniq compare uses in
     let ok = List.for_all (fun k -> List.length (calls_for (nat_of_int k) s) = 1) distinct in
@@ -707,7 +707,7 @@ let monitor_line prop line =
        (* the model is the direct computation the helper is specified by *)
        let m = model_line case in
        if obs = m then "PASS" else "FAIL the generated helper differs from direct computation: " ^ first_diff (split_ws obs) (split_ws m)
-     | ("C11" | "C01" | "C03" | "C14" | "C12"), "H" :: _ ->
+     | ("C11" | "C01" | "C03" | "C14" | "C12" | "C08"), "H" :: _ ->
        (* the property itself, on the implementation's observations alone: a never-used copy of the
           description (0), the collection after the history (1, 2, 7) and collections derived from it
           before the history (3, 4) behave identically; the derivation with one more provider (5) and the
